@@ -8,8 +8,10 @@ ASSUMPTIONS = [
     "theorems (unbounded, Coq): the shift-reduce machine OPM whose decisions are [dec_of] returns the tree of the "
     "precedence-climbing parser for every operator table and token sequence (C06_opm_climb); the model of the "
     "shift/reduce resolution code decides like [decide] in every state (C06_resolve_decides); "
-    "_max_prior_per_symbol of an operator is its production's priority for any item order; the reduce phase is the "
-    "identity on conflict-free unresolved states (C06_noop_on_conflict_free, C06_default_is_unresolved)",
+    "_max_prior_per_symbol of an operator is its production's priority for any item order, and both composed over the "
+    "whole reduce phase of an operator state (C06_operator_state_cell); the climbing tree has the input as yield and "
+    "satisfies the declarative precedence condition prec_ok (C06_climb_yield, C06_climb_prec_ok); the reduce phase is "
+    "the identity on conflict-free unresolved states (C06_noop_on_conflict_free, C06_default_is_unresolved)",
     "NOT proved: that the LR/GLR drivers on the automaton of the operator grammar are the machine OPM "
     "(planned C06_table_opm / C06_builder_opm); that link is differential only: impl LR and GLR results vs the extracted "
     "climb on every generated expression, and every operator-vs-operator cell of the impl table vs the extracted dec_of",
@@ -138,7 +140,7 @@ def gen_inputs(rng, case, quick):
     kmax = 3 if n <= 3 else 2
     if not quick:
         kmax += 1
-    budget = 90 if quick else 500
+    budget = 90 if quick else 300
     seqs = []
     for k in range(0, kmax + 1):
         seqs.extend(itertools.product(range(n), repeat=k))
@@ -151,7 +153,7 @@ def gen_inputs(rng, case, quick):
             toks += [3 + o, T_NUM]
         add(toks, "exhaustive")
     # random with parentheses
-    for _ in range(25 if quick else 150):
+    for _ in range(25 if quick else 100):
         size = rng.choice([1, 2, 3, 4, 5, 6, 8, 10, 14])
         add(ex_tokens(gen_ex(rng, n, size, rng.choice([0.0, 0.1, 0.3]))), "random")
     # one long chain (deep stack)
@@ -159,7 +161,7 @@ def gen_inputs(rng, case, quick):
     add(ex_tokens(gen_ex(rng, n, size, 0.05)), "long")
     # corrupted
     good = [t for t, _ in toks_list]
-    for _ in range(12 if quick else 60):
+    for _ in range(12 if quick else 40):
         t = list(rng.choice(good))
         r = rng.random()
         i = rng.randrange(len(t) + 1)
@@ -442,6 +444,30 @@ def _worker_noop(job):
     return out
 
 
+def _worker_rand(job):
+    """arbitrary decorated grammar, arbitrary strategies: only the reduce phase is compared"""
+    from parglare import Grammar
+    from parglare.closure import LR_0, LR_1
+    from parglare.tables import SLR, create_table
+    from lib import impl
+    text, ps, pse, tk = job
+    out = {"text": text, "ps": ps, "pse": pse, "tables": tk, "skip": None}
+    try:
+        with impl.time_limit(5), impl.quiet():
+            g = Grammar.from_string(text)
+            table = create_table(g, itemset_type=LR_0 if tk == SLR else LR_1, prefer_shifts=ps,
+                                 prefer_shifts_over_empty=pse)
+    except BaseException as e:  # noqa
+        out["skip"] = impl.exc_kind(e)
+        return out
+    gi = impl.GInfo(g)
+    out["grammar"] = gi.productions()
+    out["metas"] = _metas(g)
+    out["state_syms"] = [gi.sym(s.symbol) for s in table.states]
+    out["states"] = _dump_states(table, gi, g, tk)
+    return out
+
+
 # ------------------------------------------------------------------ the run
 def _final_canon(cells):
     return {int(k): v for k, v in cells.items()}
@@ -450,7 +476,7 @@ def _final_canon(cells):
 def run(ctx):
     rng = ctx.rng
     quick = ctx.quick()
-    n_tables = 330 if quick else 3000
+    n_tables = 200 if quick else 1000
     cases = []
     for i in range(n_tables):
         c = gen_optable(rng, i)
@@ -462,7 +488,7 @@ def run(ctx):
     bases = [(n, t, a) for n, t, a in STRATIFIED]
     for name, text in gramgen.CURATED:
         bases.append((name, text, gramgen.alphabet_of(text)))
-    for i in range(300 if quick else 4000):
+    for i in range(200 if quick else 2000):
         r = gramgen.random_grammar(rng, max_nt=3, max_alts=3, max_rhs=3, p_empty=rng.choice([0.0, 0.15]))
         if r is not None:
             bases.append(("rand%d" % i, r[1], ["a", "b"]))
@@ -479,9 +505,21 @@ def run(ctx):
                 inputs.append(s)
         noop_jobs.append((name, text, decorated, inputs))
 
+    rand_jobs = []
+    for i in range(150 if quick else 3000):
+        r = gramgen.random_grammar(rng, max_nt=3, max_alts=4, max_rhs=3,
+                                   p_empty=rng.choice([0.0, 0.15, 0.3]))
+        if r is None:
+            continue
+        rand_jobs.append((decorate(rng, r[0], rng.choice(["prod", "rule", "mixed"])),
+                          rng.random() < 0.4, rng.random() < 0.5, rng.choice([1, 1, 0])))
+
+    import time
+    t_start = time.time()
     with mp.Pool(common.NPROC) as pool:
         res_op = pool.map(_worker_optable, cases, chunksize=1)
         res_noop = pool.map(_worker_noop, noop_jobs, chunksize=1)
+        res_rand = pool.map(_worker_rand, rand_jobs, chunksize=4)
 
     st = {"operator_tables": 0, "by_n_ops": {}, "by_n_levels": {}, "rule_level_metadata": 0,
           "constructed": 0, "states_compared": 0, "operator_cells_checked": 0,
@@ -563,8 +601,27 @@ def run(ctx):
                                     sd["shifts"]]))
                 meta.append(("noop-reduce", r, v, si))
 
+    st.update({"rand_grammars": 0, "rand_skipped": {}, "rand_states_compared": 0,
+               "rand_states_where_resolution_acted": 0, "rand_cells_multi_action": 0,
+               "rand_cells_rr_override": 0})
+    for r in res_rand:
+        st["rand_grammars"] += 1
+        if r["skip"] or r["states"] is None:
+            k = r["skip"] or "dump"
+            st["rand_skipped"][k] = st["rand_skipped"].get(k, 0) + 1
+            continue
+        for si, sd in enumerate(r["states"]):
+            mcases.append((60, [r["grammar"], r["metas"], r["ps"], r["pse"], r["state_syms"], sd["items"],
+                                sd["shifts"]]))
+            meta.append(("rand-reduce", r, r, si))
+
+    t_impl = time.time()
     outs = common.model_run(mcases)
+    t_model = time.time()
     nx, xok, xlog = common.coq_crosscheck("C06", mcases, outs, ctx.rng, sample=60 if quick else 200)
+    t_x = time.time()
+    st["phase_seconds"] = {"impl_workers": round(t_impl - t_start, 1), "model": round(t_model - t_impl, 1),
+                           "vm_compute_crosscheck": round(t_x - t_model, 1)}
     if not xok:
         ctx.violation("extraction cross-check failed: OCaml driver and vm_compute disagree",
                       {"log": xlog}, no_input=True)
@@ -586,10 +643,24 @@ def run(ctx):
                               {"operators": r["case"]["ops"], "tokens": a[0], "opm": o, "climb": cl},
                               no_input=True, key="opm-climb")
             continue
-        if kind in ("reduce", "noop-reduce"):
+        if kind in ("reduce", "noop-reduce", "rand-reduce"):
             v, si = a, b
             sd = v["states"][si]
-            if kind == "reduce":
+            if kind == "rand-reduce":
+                st["rand_states_compared"] += 1
+                rep = {"grammar": v["text"], "prefer_shifts": v["ps"], "prefer_shifts_over_empty": v["pse"],
+                       "tables": "LALR" if v["tables"] == 1 else "SLR", "state": si}
+                if o[0] != [] and o[0][0] != o[2]:
+                    st["rand_states_where_resolution_acted"] += 1
+                    un = {c[0]: c[1] for c in o[2]}
+                    for c in o[0][0]:
+                        if len(c[1]) > 1:
+                            st["rand_cells_multi_action"] += 1
+                        nred_un = sum(1 for x in un.get(c[0], []) if x[0] == 1)
+                        nred = sum(1 for x in c[1] if x[0] == 1)
+                        if nred_un >= 2 and nred < nred_un:
+                            st["rand_cells_rr_override"] += 1
+            elif kind == "reduce":
                 st["states_compared"] += 1
                 rep = {"grammar": r["case"]["text"], "tables": "LALR" if v["tables"] == 1 else "SLR",
                        "state": si}
@@ -711,7 +782,8 @@ def run(ctx):
             ctx.violation("Parser tree violates 'higher priority binds tighter / equal priority groups as declared'"
                           " (prec_ok)", rep, key="prec-ok")
     cov = {
-        "evaluations": st["lr_compared"] + st["glr_compared"] + st["states_compared"] + st["noop_states_compared"],
+        "evaluations": st["lr_compared"] + st["glr_compared"] + st["states_compared"] + st["noop_states_compared"]
+        + st["rand_states_compared"],
         "distinct_nontrivial": len(distinct),
         "rule": "seeded operator tables: 1..6 operators (pool of 12 symbols incl. multi-character), 1..6 priority levels "
                 "mapped to random priorities 0..24 (crossing DEFAULT_PRIORITY), left/right per level, shuffled "
@@ -721,9 +793,12 @@ def run(ctx):
                 "parenthesis-free expressions up to 2-4 operators (sampled above a budget), random expressions with "
                 "parentheses up to 14 operators, one long expression, corrupted token sequences; random layout. "
                 "no-op stream: stratified/curated/random grammars that are conflict-free without meta-data, each with 4 "
-                "random decorations. non-trivial = distinct (grammar, well-formed expression)",
+                "random decorations. resolution stream: random grammars with random meta-data (priorities, left/right, nops, nopse, "
+                "rule level) under random prefer_shifts/prefer_shifts_over_empty, LALR or SLR, conflicts allowed -- only the "
+                "reduce phase (S/R and R/R resolution) is compared with the model. non-trivial = distinct (grammar, well-formed expression)",
         "samples": samples,
-        "traces_validated_against_impl": st["states_compared"] + st["noop_states_compared"],
+        "traces_validated_against_impl": st["states_compared"] + st["noop_states_compared"]
+        + st["rand_states_compared"],
         "distribution": st,
         "crosscheck_vm_compute_cases": nx,
         "exhaustive": False,
